@@ -103,7 +103,7 @@ Lemma decorate_spec : forall U s p n m a k,
               /\ same_content s (fst (decorate s p m a k (fresh s n m a k))).
 Proof.
   intros U s p n m a k HU G F OK. unfold decorate. rewrite F. destruct (find_node_in s p n F) as [Hn Pn].
-  destruct (g_td U s G n Hn) as [_ Fl]. rewrite (node_locked_td s n Fl).
+  destruct (g_td U s G n Hn) as [_ Fl]. rewrite (cache_active_td s n Fl).
   destruct (flag_locked n) eqn:L; cbn.
   - destruct (cache_lookup (n_cache n) m (make_cache_key a k)) as [e|] eqn:CL; cbn.
     + exists Hit. rewrite (hit_sound U s n m a k e HU G Hn CL OK). split; [reflexivity|split; [exact G|apply same_content_refl]].
@@ -116,7 +116,7 @@ Qed.
 
 Lemma decorate_hit_any : forall U s p n m a k v e,
   objs_consistent U -> Good U s -> find_node s p = Some n -> call_ok U a k ->
-  node_locked s n = true -> cache_lookup (n_cache n) m (make_cache_key a k) = Some e ->
+  cache_active s n = true -> cache_lookup (n_cache n) m (make_cache_key a k) = Some e ->
   decorate s p m a k v = (s, Some (Hit, fresh s n m a k)).
 Proof.
   intros U s p n m a k v e HU G F OK L CL. unfold decorate. rewrite F, L. cbn. rewrite CL.
@@ -209,7 +209,7 @@ Proof.
   intros U hk s p m a k HU G [OK SO]. unfold read.
   destruct (find_node s p) as [n|] eqn:F; [|split; [exact G|split; [apply same_content_refl|intros; discriminate]]].
   fold (env_of m a k).
-  set (hit := node_locked s n && match cache_lookup (n_cache n) m (make_cache_key a k) with Some _ => true | None => false end).
+  set (hit := cache_active s n && match cache_lookup (n_cache n) m (make_cache_key a k) with Some _ => true | None => false end).
   destruct (hit && negb hk) eqn:HH.
   - (* a production hit: the body does not run *)
     apply andb_prop in HH. destruct HH as [Hh _]. unfold hit in Hh. apply andb_prop in Hh. destruct Hh as [L CL].
